@@ -5,7 +5,7 @@ Properties/C12.lean — the one-edit generators and the set utilities built on t
 not generated and is not claimed.
 -/
 import Prs.Proofs.NeighborUtils
-import Prs.Proofs.NeighborLoops2
+import Prs.Proofs.NeighborLoops3
 namespace Prs
 variable {α : Type} [DecidableEq α]
 
@@ -157,6 +157,20 @@ theorem C12_source_nndist (A : List α) (seq : List α) (ref : List (List α)) (
       (d < m → ∃ r ∈ ref, ham seq r = some d) ∧
       (∀ r ∈ ref, ∀ e, ham seq r = some e → d ≤ e) := by
   rw [C12_source_nndist_hamming]; exact C12_nndist A seq ref m hm1 hm4 hA
+
+/-- `calculate_neighbor_numbers(seqs, reference, neighborhood)`: the comprehension of the source is the modelled count list
+    (`reference = none` is the default `set(seqs)`) -/
+theorem C12_source_calculate_neighbor_numbers (nb : List α → List (List α)) (xs : List (List α))
+    (ref : Option (List (List α))) :
+    Generated.calculate_neighbor_numbers xs ref nb = (neighborNumbers nb xs ref).map fun n : Nat => (n : Int) :=
+  gen_neighbor_numbers_eq nb xs ref
+
+/-- `find_neighbor_pairs_index(seqs, neighborhood)`: the appended pairs of the source are the modelled ones, in order
+    (a set is iterated in the order of first occurrence) -/
+theorem C12_source_find_neighbor_pairs_index (nb : List α → List (List α)) (xs : List (List α)) :
+    Generated.find_neighbor_pairs_index xs nb
+      = (findNeighborPairsIndex nb xs).map fun p : Nat × Nat => ((p.1 : Int), (p.2 : Int)) :=
+  gen_pairs_index_eq nb xs
 
 example : Generated.levenshtein_neighbors ['A', 'A', 'C'] ['A', 'C'] = levNeighbors ['A', 'C'] ['A', 'A', 'C'] :=
   C12_source_levenshtein_neighbors _ _
